@@ -90,6 +90,12 @@ def split_file(P, relpath):
     return False
 
 
+def split_all_files(P):
+    """One top-level unit per file (the IFS convention the build-system transformations are written for)."""
+    for rp in [rp for rp, units in P.files if len(units) > 1]:
+        split_file(P, rp)
+
+
 def distinct_incs(P, rng):
     """Distinct increments: the printed sums then identify the multiset of executed routines."""
     vals = rng.sample(range(1, 60), len(P.procs))
@@ -101,7 +107,8 @@ def distinct_incs(P, rng):
 # case generation
 # ---------------------------------------------------------------------------------------------
 
-def gen_project(rng, n_routines, extra=None, all_intf=True, internal_calls=False, kernel_module_globals=False):
+def gen_project(rng, n_routines, extra=None, all_intf=True, internal_calls=False, kernel_module_globals=False,
+                multi_unit_files=False):
     """
     schedlab project inside the documented domain of the build-system transformations.  ``all_intf``: every call of
     a free subroutine is accompanied by an interface block in the caller (the IFS convention that
@@ -112,6 +119,8 @@ def gen_project(rng, n_routines, extra=None, all_intf=True, internal_calls=False
     F.update(extra or {})
     P = L.gen_project(rng, F)
     distinct_incs(P, rng)
+    if not multi_unit_files:
+        split_all_files(P)
     if not internal_calls:
         # calls written inside internal procedures move to the body of the host (same dependencies)
         for p in P.procs:
@@ -259,6 +268,9 @@ def gen_config(rng, P, opts=None):
     if exp.error:
         return None, 'reference closure: ' + str(exp.error)
     seedq = {p.qname for p in seeds}
+
+    def rkey(p):
+        return next((k for k in (p.name, p.qname) if k in routines), None) or key_for(p)
     kernels = sorted(n for n, k in exp.nodes.items() if k == 'ProcedureItem' and n not in seedq)
     byq = {p.qname: p for p in P.procs}
     where, count = file_of(P)
@@ -272,15 +284,22 @@ def gen_config(rng, P, opts=None):
         p = byq[q]
         if o['replicate'] and rng.random() < 0.15 and q not in meta['replicated']:
             # a retained original needs its callees retained as well: replicate is closed under descendants
-            grp = [q] + [g for g in sorted(descendants(exp, q)) if exp.nodes.get(g) == 'ProcedureItem']
+            grp, todo = [], [q]
+            while todo:
+                g = todo.pop()
+                if g in grp or byq.get(g) is None:
+                    continue
+                grp.append(g)
+                todo += [d for d in descendants(exp, g) if exp.nodes.get(d) == 'ProcedureItem']
+                if byq[g].module:    # the whole file is retained: its other procedures keep calling their callees
+                    todo += [s.qname for s in P.modules[byq[g].module].procs]
             if all(count.get(where.get(g), 1) == 1 and byq[g].module not in driver_modules and g not in seedq
-                   for g in grp):
+                   and g in exp.nodes for g in grp):
                 for g in grp:
                     if g not in meta['replicated']:
                         meta['replicated'].append(g)
                         if g != q:
-                            routines.setdefault(byq[g].name if byq[g].name not in routines else byq[g].qname,
-                                                {})['replicate'] = True
+                            routines.setdefault(rkey(byq[g]), {})['replicate'] = True
                 entry['replicate'] = True
         if o['libs'] and rng.random() < 0.25:
             entry['lib'] = rng.choice(['liba', 'lib.b'])
@@ -290,8 +309,7 @@ def gen_config(rng, P, opts=None):
         if o['expand_false'] and rng.random() < 0.1:
             entry['expand'] = False
         if entry:
-            k_ = next((k for k in (p.name, p.qname) if k in routines), None) or key_for(p)
-            routines.setdefault(k_, {}).update(entry)
+            routines.setdefault(rkey(p), {}).update(entry)
     if o['lists'] and kernels:
         for key in ('disable', 'block', 'ignore'):
             if rng.random() < 0.4:
@@ -372,14 +390,14 @@ def descendants(exp, q):
 
 def choose_pipeline(rng, P, exp, meta, shape, allow=()):
     """
-    Pipeline specification for ``shape`` (write | dep | wrapdep | dup | rem | duprem | all).  Kernels whose traits are
+    Pipeline specification for ``shape`` (write | dep | wrapdep | dup | rem | duprem | dupdep | all).  Kernels whose traits are
     not in ``allow`` are not chosen.  Returns (spec, info) with info = {'dup', 'rem', 'subgraph', 'traits'}.
     """
     allow = set(allow)
     cands = kernel_candidates(P, exp, meta)
     spec = []
     info = {'dup': None, 'rem': None, 'subgraph': False, 'traits': set()}
-    if shape in ('dup', 'duprem', 'all'):
+    if shape in ('dup', 'duprem', 'dupdep', 'all'):
         sub = rng.random() < 0.4
         ok = []
         for q, traits in sorted(cands.items()):
@@ -418,9 +436,9 @@ def choose_pipeline(rng, P, exp, meta, shape, allow=()):
             spec.append(('rem', {'remove_kernels': [q.split('#')[1]]}))
     if rng.random() < 0.25:
         spec.reverse()
-    if shape in ('wrapdep', 'all') and (shape == 'wrapdep' or rng.random() < 0.5):
+    if shape in ('wrapdep', 'dupdep', 'all') and (shape == 'wrapdep' or rng.random() < 0.5):
         spec.append(('wrap', {'module_suffix': '_mod'}))
-    if shape in ('dep', 'wrapdep', 'all'):
+    if shape in ('dep', 'wrapdep', 'dupdep', 'all'):
         spec.append(('dep', {'suffix': rng.choice(['_loki', '_lk']), 'module_suffix': rng.choice(['_mod', '_mod', None])}))
     return spec, info
 
@@ -593,13 +611,47 @@ def _explain(msg, blob):
 FAST_FLAGS = ['-O0', '-g', '-fcheck=all', '-ffree-line-length-none', '-finit-integer=-99999', '-w']
 
 
-def build_and_run(workdir, files, driver, must_compile=None):
+_CALL = re.compile(r'\bcall\s+(\w+)', re.I)
+_TOP_PROC = re.compile(r'^(?:recursive\s+)?(?:integer\s+)?(?:subroutine|function)\s+(\w+)', re.I | re.M)
+
+
+def top_level_names(text):
+    """names of modules and of external (column-0 after Loki / generator formatting) procedures defined in ``text``"""
+    return {m.lower() for m in _MOD_DEF.findall(text)} | {m.lower() for m in _TOP_PROC.findall(text)}
+
+
+def build_and_run(workdir, required, driver, optional=None):
     """
-    Compile ``files`` ({path-like name: text}) + ``driver`` (PROGRAM text) and run.
-    Files that use a module defined nowhere in ``files`` are left out unless named in ``must_compile``
-    (untouched originals outside the processed closure may refer to replaced modules).
-    Returns {'status': 'ok'|'build_fail'|'run_fail', 'out': str, 'detail': str, 'skipped': [...]}
+    Compile ``required`` ({path-like name: text}) + ``driver`` (PROGRAM text), link and run.  Files of ``optional``
+    are added on demand: when they define a module that an included file uses or an external procedure that an
+    included file calls and no included file defines.
+    Returns {'status': 'ok'|'build_fail'|'run_fail', 'out': str, 'detail': str, 'pulled': [...]}
     """
+    optional = dict(optional or {})
+    files = dict(required)
+    pulled = []
+    drv_name = 'zz driver'
+    while True:
+        defs_mod, defs_proc = set(), set()
+        for t in files.values():
+            mods, _, procs = scan_units(t)
+            defs_mod |= set(mods)
+            defs_proc |= set(procs)
+        need_mod, need_proc = set(), set()
+        for t in list(files.values()) + [driver]:
+            _, uses, _ = scan_units(t)
+            need_mod |= set(uses) - defs_mod
+            need_proc |= {c.lower() for c in _CALL.findall(t)} - defs_proc
+        add = None
+        for name in sorted(optional):
+            mods, _, _ = scan_units(optional[name])
+            if set(mods) & need_mod or ({m.lower() for m in _TOP_PROC.findall(optional[name])} & need_proc):
+                add = name
+                break
+        if add is None:
+            break
+        files[add] = optional.pop(add)
+        pulled.append(add)
     flat, used = {}, set()
     for name, text in files.items():
         base = Path(name).name
@@ -610,32 +662,24 @@ def build_and_run(workdir, files, driver, must_compile=None):
             base = f'{stem}_{k}.{suf}'
         used.add(base.lower())
         flat[base] = (name, text)
-    texts = {b: t for b, (_, t) in flat.items()}
-    must = {b for b, (n, _) in flat.items() if must_compile and n in must_compile}
-    skipped = []
-    while True:
-        order, missing = build_order(texts)
-        drop = [f for f in missing if f not in must]
-        if not drop:
-            break
-        for f in drop:
-            skipped.append(flat[f][0])
-            del texts[f]
+    texts = {b_: t for b_, (_, t) in flat.items()}
+    order, missing = build_order(texts)
     if missing:
         f = sorted(missing)[0]
-        return {'status': 'build_fail', 'out': '', 'skipped': skipped,
+        return {'status': 'build_fail', 'out': '', 'pulled': pulled,
                 'detail': f'{flat[f][0]} uses module(s) {sorted(set(missing[f]))} defined in no file of the build'}
+    del drv_name
     # one translation unit in dependency order: two compiler processes per build instead of one per file
     blob = '\n'.join(f'! ---- file {flat[f][0]}\n{texts[f]}' for f in order) + '\n! ---- driver\n' + driver
     try:
         exe = diffexec.build(workdir, [('all_units.F90', blob)], fflags=FAST_FLAGS)
     except diffexec.BuildError as e:
-        return {'status': 'build_fail', 'out': '', 'detail': _explain(str(e), blob), 'skipped': skipped}
+        return {'status': 'build_fail', 'out': '', 'detail': _explain(str(e), blob), 'pulled': pulled}
     r = diffexec.run(exe, timeout=30)
     if r['rc'] != 0 or r['san']:
         return {'status': 'run_fail', 'out': r['out'], 'detail': f"rc={r['rc']} {r['san'][:2]} {r['err'][-300:]}",
-                'skipped': skipped}
-    return {'status': 'ok', 'out': r['out'], 'detail': '', 'skipped': skipped}
+                'pulled': pulled}
+    return {'status': 'ok', 'out': r['out'], 'detail': '', 'pulled': pulled}
 
 
 # ---------------------------------------------------------------------------------------------
